@@ -35,14 +35,13 @@ theorem bytes_back : ∀ b : List UInt8, List.map (fun c => c.toNat.toUInt8) (Li
     rw [List.map_cons, List.map_cons, charNat u.toNat u.toNat_lt, bytes_back b]
     simp
 
-theorem zero_call (scale : Rat) : scaledCall scale (.float (0 : Rat)) = .ok 0 ∧ SnapFix scale (0 : Rat) := by
+theorem zero_call (scale : Rat) : DType.snap scale (0 : Rat) = some 0 ∧ SnapFix scale (0 : Rat) := by
   have hr : RatCarrier.round 0 = 0 := by decide +kernel
   have hg : DType.gridIndex scale (0 : Rat) = some 0 := by
     simp only [DType.gridIndex, FloatOps.div, FloatOps.round, Rat.div_def, Rat.zero_mul, hr]
   have hfin : isFinite (0 : Rat) = true := by decide +kernel
   constructor
-  · simp only [scaledCall, PVal.toFloat?, FloatOps.addZero, hg, FloatOps.ofInt, FloatOps.mul, Rat.intCast_ofNat, Rat.zero_mul, hfin,
-      if_true]
+  · simp only [DType.snap, hg, DType.ofGrid, FloatOps.ofInt, FloatOps.mul, Rat.intCast_ofNat, Rat.zero_mul]
   · simp only [SnapFix, DType.snap, hg, DType.ofGrid, FloatOps.ofInt, FloatOps.mul, Rat.intCast_ofNat, Rat.zero_mul, IsSome,
       FloatOps.same, decide_true]
 
@@ -62,9 +61,9 @@ theorem exLib_lawful : TextLib.Lawful exLib where
   evalBool b := by cases b <;> simp [exLib, tokTrue, tokFalse]
   boolWordTrue := rfl
   boolWordFalse := rfl
-  fmtDouble pos x hfin _ := ⟨.float 0, 0, by simp [exLib, tokF], by rfl, rfl⟩
+  fmtDouble pos x hfin _ := ⟨.float 0, 0, by simp [exLib, tokF], rfl, rfl, rfl⟩
   fmtScaled pos scale x _ _ := by
     obtain ⟨h1, h2⟩ := zero_call scale
-    exact ⟨.float 0, 0, by simp [exLib, tokF], h1, rfl, h2⟩
+    exact ⟨.float 0, 0, 0, by simp [exLib, tokF], rfl, h1, by decide +kernel, rfl, h2⟩
 
 end Frappy.Lemmas.C02
